@@ -515,6 +515,24 @@ impl<'a> NNumReal<'a> {
             NNumReal::Float(f) => BigRational::from_float(*f),
         }
     }
+
+    // +1 / -1 for an infinite float (which has no exact rational value), None otherwise
+    fn infinite_signum(&self) -> Option<i8> {
+        match self {
+            NNumReal::Float(f) if f.is_infinite() => Some(if *f > 0.0 { 1 } else { -1 }),
+            _ => None,
+        }
+    }
+
+    // comparison through exact rationals; an infinite float is beyond every exact number
+    fn exact_cmp(&self, other: &Self) -> Option<Ordering> {
+        match (self.exact_to_rational(), other.exact_to_rational()) {
+            (Some(a), Some(b)) => Some(a.cmp(&b)),
+            (None, Some(_)) => self.infinite_signum().map(|s| s.cmp(&0)),
+            (Some(_), None) => other.infinite_signum().map(|s| 0.cmp(&s)),
+            (None, None) => None,
+        }
+    }
 }
 
 fn to_nint_if_int(f: f64) -> Option<NInt> {
@@ -551,7 +569,7 @@ impl<'a> PartialOrd for NNumReal<'a> {
             (NNumReal::Int(a), NNumReal::Float(b)) => cmp_nint_f64(a, b),
             (NNumReal::Float(a), NNumReal::Int(b)) => cmp_nint_f64(b, a).map(|ord| ord.reverse()),
             (NNumReal::Float(a), NNumReal::Float(b)) => a.partial_cmp(b),
-            (a, b) => a.exact_to_rational()?.partial_cmp(&b.exact_to_rational()?),
+            (a, b) => a.exact_cmp(b),
         }
     }
 }
@@ -569,10 +587,7 @@ impl<'a> NNumReal<'a> {
             (NNumReal::Float(a), NNumReal::Float(b)) => {
                 a.partial_cmp(b).unwrap_or(b.is_nan().cmp(&a.is_nan()))
             } // note swap
-            (a, b) => match (a.exact_to_rational(), b.exact_to_rational()) {
-                (Some(a), Some(b)) => a.cmp(&b),
-                _ => b.is_nan().cmp(&a.is_nan()),
-            },
+            (a, b) => a.exact_cmp(b).unwrap_or(b.is_nan().cmp(&a.is_nan())),
         }
     }
 
@@ -586,10 +601,7 @@ impl<'a> NNumReal<'a> {
             (NNumReal::Float(a), NNumReal::Float(b)) => {
                 a.partial_cmp(b).unwrap_or(a.is_nan().cmp(&b.is_nan()))
             }
-            (a, b) => match (a.exact_to_rational(), b.exact_to_rational()) {
-                (Some(a), Some(b)) => a.cmp(&b),
-                _ => a.is_nan().cmp(&b.is_nan()),
-            },
+            (a, b) => a.exact_cmp(b).unwrap_or(a.is_nan().cmp(&b.is_nan())),
         }
     }
 }
